@@ -634,6 +634,7 @@ class Exec(Engine):
                 newb = SV(t, z3.Store(base.z, k.z, v.z))
             else:
                 raise Unsupported(f'subscript assignment on {t}')
+            newb.via_mutation = True          # `x[k] = v` mutates the object x is bound to (write through an aliasing local)
             return outs + self.assign_to(tgt.value, newb, st, line)
         raise Unsupported(f'assignment target {type(tgt).__name__}')
 
@@ -1984,6 +1985,11 @@ class Exec(Engine):
         node, seg, l0, l1 = self.index.find(fkey)
         ex = Extractor(display=c.display)
         fn = ex.clean(node)
+        if c.classmethod_of:
+            # `cls(...)` in a classmethod constructs the defining class (assumption: not called on a subclass)
+            for x in ast.walk(fn):
+                if isinstance(x, ast.Call) and isinstance(x.func, ast.Name) and x.func.id == 'cls':
+                    x.func = ast.copy_location(ast.Name(id=c.classmethod_of, ctx=ast.Load()), x.func)
         info = dict(function=fkey, file=self.index.module_path(self.cur_module), first_line=l0, last_line=l1,
                     source_sha256=sha(seg), contract_sha256=c.sha(), dropped=[f'line {a}: {b}' for a, b in ex.dropped])
         for x in ast.walk(fn):
@@ -2034,6 +2040,11 @@ class Exec(Engine):
         if rt.k != 'none':
             ev = Evaluator(self, st)
             val = self.fix_empty_to(ev, val, rt)
+            if val.t.k == 'opt' and val.t.args[0] == rt:
+                # the code returns an Optional where the contract promises a value: "not None" becomes an obligation
+                self.vc(st, z3.Not(val.z['none']), name='returns[a value, not None]', kind='ensures', serves=())
+                st.assume(z3.Not(val.z['none']))
+                val = SV(rt, val.z['v'])
             try:
                 b2['result'] = self.coerce(val, rt) if val.t != rt else val
             except Unsupported:
